@@ -73,7 +73,7 @@ def prove(tier, seed):
                                 for b in (1, 2, 3):
                                     if a != b:
                                         shapes.append([a, b, X, Y])
-                            x["replay"] = [dict(clause="cv.bruteforce_ge", function="classical_value", input_class="classical_value/shape", params=dict(shape=s, kind="01", seed=1)) for s in shapes if s[0] ** s[2] * s[1] ** s[3] <= 729] + [dict(clause="cv.bruteforce_le", function="classical_value", input_class="classical_value/shape", params=dict(shape=s, kind="01", seed=1)) for s in shapes if s[0] ** s[2] * s[1] ** s[3] <= 729]
+                            x["replay"] = [dict(clause="cv.pool_branch", function="classical_value", input_class="classical_value/pool-branch/%s" % kd, params=dict(shape=sh, kind=kd, seed=1), inline=True) for sh, kd in (([3, 3, 7, 7], "tail"), ([2, 3, 11, 7], "tail"), ([3, 2, 7, 11], "head-high"))] + [dict(clause="cv.bruteforce_ge", function="classical_value", input_class="classical_value/shape", params=dict(shape=s, kind="01", seed=1)) for s in shapes if s[0] ** s[2] * s[1] ** s[3] <= 729] + [dict(clause="cv.bruteforce_le", function="classical_value", input_class="classical_value/shape", params=dict(shape=s, kind="01", seed=1)) for s in shapes if s[0] ** s[2] * s[1] ** s[3] <= 729]
                     recs += r
         if only in (None, "process_iteration"):
             for Y in (1, 2, 3, 4):
@@ -192,6 +192,49 @@ def cv_bruteforce_le(p):
     exp = _brute(prob, pred)
     if got > exp + 1e-9:
         raise Violation("classical_value %.6f > brute-force maximum %.6f on shape (A,B,X,Y)=%s" % (got, exp, p["shape"]))
+
+
+def cv_pool_branch(p):
+    """games in which BOTH players have more than 1000 deterministic strategies (the branch of classical_value that uses a process pool):
+    the value equals the exact optimum, computed independently as max over g of sum_x max_a sum_y pi(x,y) V(a, g(y), x, y)"""
+    import numpy as np
+
+    from toqito.nonlocal_games.nonlocal_game import NonlocalGame
+    from vt.contract import Violation
+
+    A, B, X, Y = p["shape"]
+    rng = np.random.default_rng(p.get("seed", 0))
+    prob = rng.random((X, Y)) + 0.05
+    prob /= prob.sum()
+    if p.get("kind") == "tail":
+        # the enumerated player's best answer function gives the HIGHEST label on every question (the last strategy index)
+        pred = np.zeros((A, B, X, Y))
+        pred[:, B - 1, :, :] = 1.0
+        pred *= rng.random((A, 1, X, 1)) * 0.2 + 0.8
+    elif p.get("kind") == "head-high":
+        pred = (rng.random((A, B, X, Y)) < 0.3).astype(float)
+        pred[:, B - 1, :, : Y // 2] = 1.0
+    else:
+        pred = (rng.random((A, B, X, Y)) < 0.5).astype(float)
+    W = prob[None, None, :, :] * pred  # (A,B,X,Y)
+    best = -1.0
+    for g in itertools.product(range(B), repeat=Y):
+        # S[a,x] = sum_y W[a, g(y), x, y]
+        S = sum(W[:, g[y], :, y] for y in range(Y))
+        best = max(best, float(S.max(axis=0).sum()))
+    # the same maximum from the other player's side (max over f of sum_y max_b ...), as a cross-check of the oracle
+    best2 = -1.0
+    if A**X <= 5000:
+        for f in itertools.product(range(A), repeat=X):
+            T = sum(W[f[x], :, x, :] for x in range(X))
+            best2 = max(best2, float(T.max(axis=0).sum()))
+        if abs(best - best2) > 1e-9:
+            raise Violation("oracle inconsistency %.9f vs %.9f" % (best, best2))
+    got = NonlocalGame(prob, pred).classical_value()
+    if got < best - 1e-9:
+        raise Violation("classical_value %.6f < exact optimum %.6f on shape (A,B,X,Y)=%s with more than 1000 strategies per player (%s)" % (got, best, p["shape"], p.get("kind")))
+    if got > best + 1e-9:
+        raise Violation("classical_value %.6f > exact optimum %.6f on shape (A,B,X,Y)=%s (%s)" % (got, best, p["shape"], p.get("kind")))
 
 
 def pi_value(p):
@@ -430,6 +473,7 @@ CLAUSES = {
     "cv.bruteforce_ge": cv_bruteforce_ge,
     "cv.bruteforce_le": cv_bruteforce_le,
     "pi.value": pi_value,
+    "cv.pool_branch": cv_pool_branch,
     "cv.reps": cv_reps,
     "bcs": bcs,
     "order": order,
@@ -437,7 +481,7 @@ CLAUSES = {
     "odometer.successor": odometer_successor,
     "npa.words": npa_words,
 }
-_FN = {"cv.bruteforce_ge": "classical_value", "cv.bruteforce_le": "classical_value", "pi.value": "process_iteration", "cv.reps": "NonlocalGame.__init__", "bcs": "from_bcs_game", "order": "value ordering", "frame.snapshot": "value methods", "odometer.successor": "update_odometer", "npa.words": "npa_hierarchy"}
+_FN = {"cv.pool_branch": "classical_value", "cv.bruteforce_ge": "classical_value", "cv.bruteforce_le": "classical_value", "pi.value": "process_iteration", "cv.reps": "NonlocalGame.__init__", "bcs": "from_bcs_game", "order": "value ordering", "frame.snapshot": "value methods", "odometer.successor": "update_odometer", "npa.words": "npa_hierarchy"}
 for _k, _f in CLAUSES.items():
     _f.function = _FN[_k]
 order.limit = 120
@@ -460,6 +504,8 @@ def cases(tier, seed):
             for s in (seed, seed + 1) if thorough else (seed,):
                 add("cv.bruteforce_ge", dict(shape=list(shape), kind=kind, seed=s), "classical_value/shape", nt)
                 add("cv.bruteforce_le", dict(shape=list(shape), kind=kind, seed=s), "classical_value/shape", nt)
+    for shape, kind in (([3, 3, 7, 7], "tail"), ([2, 3, 11, 7], "tail"), ([3, 2, 7, 11], "head-high"), ([2, 2, 11, 10], "random")):
+        out.append(dict(clause="cv.pool_branch", params=dict(shape=shape, kind=kind, seed=seed), input_class="classical_value/pool-branch/%s" % kind, nontrivial=True, inline=True))
     for shape in ([2, 2, 3, 2], [3, 2, 2, 3], [2, 3, 2, 1], [2, 2, 2, 4], [1, 3, 2, 2]):
         add("pi.value", dict(shape=shape, seed=seed), "process_iteration")
     for shape in itertools.product((1, 2), repeat=4):
